@@ -711,6 +711,21 @@ func ruleFieldsRecorded(c *Ctx) {
 		return
 	}
 	n := 0
+	// recorders: functions that insert into fkeys themselves (a helper extracted from the appending function)
+	recorders := map[*types.Func]bool{}
+	for _, fn := range c.AllFuncs("internal/server") {
+		if fn.Decl.Body == nil {
+			continue
+		}
+		ast.Inspect(fn.Decl.Body, func(x ast.Node) bool {
+			if call, ok := x.(*ast.CallExpr); ok {
+				if se, ok := ast.Unparen(call.Fun).(*ast.SelectorExpr); ok && se.Sel.Name == "Insert" && selField(fn.Info(), se.X) == fkeys {
+					recorders[fn.Obj] = true
+				}
+			}
+			return true
+		})
+	}
 	for _, fn := range c.AllFuncs("internal/server") {
 		info := fn.Info()
 		var appends []*ast.AssignStmt
@@ -739,7 +754,12 @@ func ruleFieldsRecorded(c *Ctx) {
 				return true
 			}
 			se, ok := ast.Unparen(call.Fun).(*ast.SelectorExpr)
-			if !ok || se.Sel.Name != "Insert" || selField(info, se.X) != fkeys {
+			direct := ok && se.Sel.Name == "Insert" && selField(info, se.X) == fkeys
+			viaHelper := false
+			if f := callee(info, call); f != nil && f != fn.Obj && recorders[f] {
+				viaHelper = true
+			}
+			if !direct && !viaHelper {
 				return true
 			}
 			var anchor ast.Node = call
